@@ -37,9 +37,19 @@ inductive Target where
   | exact (v : Nat)
   deriving DecidableEq, Repr, Inhabited
 
+/-- which of the proposed repairs are present in the source (`notes/fix-C20-*.diff`); read from
+the source text on every run by `tools/extractors/builder_fixes.py`.  Default = unchanged code. -/
+structure Fixes where
+  /-- `OutOfRange(self.outgoing, amount.saturating_sub(1))` instead of `amount - 1` -/
+  subOverflow : Bool := false
+  /-- a zero `Value`/`ExactPostage` target is rejected (`Error::Dust`) for OP_RETURN recipients -/
+  zeroBurn : Bool := false
+  deriving Repr, DecidableEq
+
 structure Env where
   fee : Nat → Nat
   dust : Script → Nat
+  fixes : Fixes := {}
 
 /-- wallet state; `amounts` / `inscriptions` in `BTreeMap` key order -/
 structure Wallet where
@@ -217,7 +227,8 @@ def selectOutgoing (env : Env) (w : Wallet) (r : Request) (st : St) : Outcome St
       | some amount =>
         if r.outgoing.2 ≥ amount then
           -- `Err(Error::OutOfRange(self.outgoing, amount - 1))`
-          if amount = 0 then .panic "sub-overflow@select_outgoing" else .err "OutOfRange"
+          if amount = 0 ∧ env.fixes.subOverflow = false then .panic "sub-overflow@select_outgoing"
+          else .err "OutOfRange"
         else
           .ok { st with
             utxos := st.utxos.erase r.outgoing.1
@@ -461,7 +472,8 @@ def buildFinal (env : Env) (w : Wallet) (r : Request) (st : St) : Outcome Tx := 
 def precheck (env : Env) (r : Request) : Outcome Unit :=
   -- `change_addresses : BTreeSet<Address>` has fewer than two elements
   if r.change0 = r.change1 then .err "DuplicateAddress"
-  else if r.recipient.opReturn then .ok ()
+  else if r.recipient.opReturn then
+    if env.fixes.zeroBurn ∧ (r.target = .value 0 ∨ r.target = .exact 0) then .err "Dust" else .ok ()
   else if !r.recipient.addr then .err "InvalidAddress"
   else if r.recipient = r.change0 ∨ r.recipient = r.change1 then .err "DuplicateAddress"
   else match r.target with
